@@ -5,7 +5,7 @@ ID = "C18"
 ML = "mC18"
 HARNESS = "harness/C18.c"
 SRCS = None
-EXTRA_LD = ["-Wl,--wrap=ppoll", "-Wl,--wrap=gettimeofday"]
+EXTRA_LD = ["-Wl,--wrap=ppoll", "-Wl,--wrap=gettimeofday", "-Wl,--wrap=read"]
 LEVEL = "proof"      # evidence category; partial overall, see ASSUMPTIONS[0] and notes
 CASE_TIMEOUT = 0.02
 RULE = ("case = callback table + script over the real toplevel instance with the default event loop; ppoll is replaced at "
@@ -24,8 +24,9 @@ ASSUMPTIONS = ["PARTIAL by nature: the theorems hold over the loop model under t
                "ppoll that finds no ready descriptor, and that ppoll then fails with EINTR; ppoll writes revents for every slot",
                "a signal watch is not cancelled while its signal is pending in the kernel (the last cancel restores the default action)",
                "signal callbacks do not register further watches of a signal while its watchers are being invoked",
-               "the ppoll-based loop (Linux); the self-pipe fallback of tickit.c is not exercised", "malloc does not fail"]
-TRUSTED = ["model coq/LoopSigDefs.v hand-written after src/evloop-default.c and src/tickit.c (with fixes/C18-*.patch applied); "
+               "two loops are exercised: the default ppoll-based one (Linux) and a minimal poll loop without ->signal hook (self-pipe fallback)", "malloc does not fail"]
+TRUSTED = ["model coq/LoopPipeDefs.v of the self-pipe fallback (pipe as a byte counter) and the checker coq/LoopPipeSpec.v (obligation per raise and watcher)",
+           "model coq/LoopSigDefs.v hand-written after src/evloop-default.c and src/tickit.c (with fixes/C18-*.patch applied); "
            "specification coq/LoopSigSpec.v (snapshot semantics, no errno, no revents table)",
            "harness/loopharness.h: link-time replacement of ppoll that plays the kernel (real signals, real handler, scripted outcome)"]
 
@@ -63,6 +64,63 @@ def gen(tier, seed, info):
                                 "callback bodies) x 6 IO configurations x 8 arrival patterns, then three NOHANG iterations "
                                 "(quick: about half of the combinations that have both IO and an arrival)")
     info["exhaustive_cases"] = n
+    # ---- the self-pipe fallback (custom event loop without a ->signal hook): signals are not
+    #      blocked, the handler runs at once; arrival points: before an iteration, from a deferred
+    #      callback, from inside a signal callback of the running dispatch (other / same signal),
+    #      right after the wakeup read (B<sig>), bursts
+    rnd = random.Random(seed * 7919 + 1818)
+    nfb = 0
+    fwatch = ["ws10:0:1", "ws10:0:1 ws12:0:2", "ws10:0:1 ws12:0:2 ws10:2:3", "ws12:0:2 ws10:0:1", "ws10:2:1 ws10:0:3 ws12:0:2"]
+    fcb1 = ["-", "k12", "k10", "k10,k12", "c1", "c0", "l0:4", "k12,c0"]
+    fcb2 = ["-", "k10", "k12"]
+    fcb3 = ["-", "k10"]
+    fcb4 = ["k10", "k12", "-"]
+    farr = ["k10", "k10 k12", "k10 k10", "k12", "l0:4", "B12 k10", "B10 k10", "k10 r0 k12", "l0:4 k10", "k10 r0 r0 B12 k12"]
+    for w in fwatch:
+        for c1 in fcb1:
+            for c2 in fcb2:
+                for c3 in fcb3:
+                    for c4 in fcb4:
+                        for a in farr:
+                            if tier == "quick" and (len(c1) + len(c2) + len(c3) + len(c4) + len(a)) % 3 == 0:
+                                continue
+                            nfb += 1
+                            yield "F cb1=%s cb2=%s cb3=%s cb4=%s %s %s r0 r0 r0 r0" % (c1, c2, c3, c4, w, a)
+    nfbr = 6000 if tier == "quick" else 300000
+    for _ in range(nfbr):
+        ncb = rnd.randint(1, 4)
+        toks = ["F"]
+        for k in range(ncb):
+            acts = []
+            for _ in range(rnd.randint(1, 3)):
+                r = rnd.random()
+                if r < 0.45:
+                    acts.append("k%d" % rnd.choice(SIGS))
+                elif r < 0.65:
+                    acts.append("c%d" % rnd.randrange(6))
+                elif r < 0.8:
+                    acts.append("l%d:%d" % (rnd.choice([0, 2]), rnd.randrange(k + 1, ncb + 1)))
+                else:
+                    acts.append("-")
+            toks.append("cb%d=%s" % (k, ",".join(acts)))
+        for _ in range(rnd.randint(4, 12)):
+            r = rnd.random()
+            if r < 0.3:
+                toks.append("ws%d:%d:%d" % (rnd.choice(SIGS), rnd.choice([0, 2]), rnd.randrange(ncb + 1)))
+            elif r < 0.4:
+                toks.append("l%d:%d" % (rnd.choice([0, 2]), rnd.randrange(ncb + 1)))
+            elif r < 0.6:
+                toks.append("k%d" % rnd.choice(SIGS))
+            elif r < 0.68:
+                toks.append("B%d" % rnd.choice(SIGS))
+            elif r < 0.75:
+                toks.append("c%d" % rnd.randrange(6))
+            else:
+                toks.append("r0")
+        toks += ["r0", "r0", "r0"]
+        yield " ".join(toks)
+    info["fallback_cases"] = nfb + nfbr
+    n += nfb
     # ---- structured random
     rnd = random.Random(seed * 7919 + 18)
     nrand = 30000 if tier == "quick" else 1500000
@@ -150,7 +208,10 @@ def classify(case, obs):
     if not fired:
         return None
     toks = case.split()
-    arrive = tuple(sorted(set(t[0] for t in toks if t[0] in "kKR" and not t.startswith("cb"))))
+    arrive = tuple(sorted(set(t[0] for t in toks if t[0] in "kKRBF" and not t.startswith("cb"))))
+    if toks and toks[0] == "F":
+        # which callbacks raise signals (arrival during dispatch / from a deferred callback)
+        arrive += tuple(sorted(set("cbk" for t in toks if t.startswith("cb") and "k" in t.split("=", 1)[1])))
     cbacts = set()
     for t in toks:
         if t.startswith("cb"):
@@ -161,7 +222,8 @@ def classify(case, obs):
 
 def shrink(case):
     toks = case.split()
-    for i in range(len(toks)):
+    keep = 1 if toks and toks[0] == "F" else 0      # the loop selector is not a shrinkable token
+    for i in range(keep, len(toks)):
         yield " ".join(toks[:i] + toks[i + 1:])
     for i, t in enumerate(toks):
         if t.startswith("cb") and "," in t:
